@@ -136,8 +136,8 @@ MsgC12(r, pre, post) ==
   \* sender, the content status it came with and the download flag of the current policy; every subscriber sees the
   \* same sequence and nobody else sees anything.
   LET flat == FlattenVals(r.parts)
-      goodIdx == {n \in 1..Len(flat) : Acceptable(flat[n], r.now, TRUE)}
-      Pos(ev) == {n \in goodIdx : flat[n].e = ev.e /\ flat[n].cs = ev.cs}
+      \* (whether a value of the message was acceptable at all is C03's question: any value of the message may be named)
+      Pos(ev) == {n \in 1..Len(flat) : flat[n].e = ev.e /\ flat[n].cs = ev.cs}
   IN \A s \in 1..Len(r.evs) :
        IF s \in subs
        THEN LET L == r.evs[s] IN
